@@ -97,6 +97,7 @@ class Verdict:
         self.notes = []
         self.oserr = set()
         self.unsupported = False
+        self.bad_refs = set()     # Manifest files for which some accepted Manifest holds a MANIFEST entry that does not match
         self.chain_why = {}
 
     def as_dict(self):
@@ -211,6 +212,15 @@ class Model:
                 for h in e.get('sums', {}):
                     if G.HASHLIB_NAME.get(h) not in hashlib.algorithms_available:
                         v.unsupported = True
+        # references that arrive after their Manifest was accepted (second MANIFEST entry in a Manifest loaded
+        # later): whether they are compared at load time depends on the order of earlier calls on the loader
+        for mp, ents in loaded.items():
+            md = os.path.dirname(mp)
+            for e in ents:
+                if e['tag'] == 'MANIFEST':
+                    full = pjoin(md, e['path'])
+                    if full in loaded and entry_matches(probe(self._p(full)), e) is not None:
+                        v.bad_refs.add(full)
         return loaded
 
     def merged_entries(self, loaded, subpath, v):
